@@ -3,6 +3,11 @@
 import json, sys
 ALL = ["C%02d" % i for i in range(1, 21)]
 CHECKS = {
+ "C01": dict(
+  technique="property-based testing (proptest structured generator + byte/structure-aware mutators) with differential comparison against an independent wire codec and SHA-256d",
+  text="Generated-input search: structured transactions over boundary-valued fields and counts (incl. 65536-element cases) are encoded by an independent encoder, parsed by the library and compared accessor by accessor with an independent decoder; ids against a reference SHA-256d; the same values rebuilt through five construction-API variants; byte mutants, compact-size substitutions in every form and splices are checked for normalisation to a fixed point and agreement with a tolerant reference decoder. Exploration fits: the property quantifies over byte strings with an executable round-trip/differential oracle.",
+  note="Trusted: refimpl::wire, refimpl::hashes (validated against NIST vectors and python hashlib), refimpl::script_tok, the generators, proptest.",
+  ref="DESIGN.md §3 C01"),
  "C02": dict(
   technique="property-based testing (proptest grammar generator + bounded-exhaustive enumeration) against an independent tokenizer/encoder; libFuzzer target `script` in the thorough tier",
   text="Generated-input search: every 1- and 2-byte string, every push form x boundary length x {L-1,L,L+1}, tens of thousands of grammar scripts, mutants, truncations and unterminated blocks per run are parsed by the library and compared with an independent tokenizer (bytes, element sequence, nesting tree); the push helper is compared with the minimal-prefix rule over the whole u64 range. Exploration is the right level: the property quantifies over byte strings and the oracle is executable.",
